@@ -395,6 +395,10 @@ impl SpanningTree {
     }
 }
 
+#[cfg(zcash_librustzcash_verif)]
+#[path = "spanning_tree_verif_hooks.rs"]
+pub mod verif_hooks;
+
 #[cfg(any(test, feature = "test-dependencies"))]
 pub mod testing {
     use std::ops::Range;
